@@ -1,6 +1,205 @@
-(* Properties_C03.v — stub, being filled *)
+(* Properties_C03.v — C03: rearranging views (reshape, flatten, transpose, moveaxis, swapaxes,
+   expand_dims, squeeze, atleast_nd, flip) equal NumPy's result.  Statements only.
+   Every statement holds for EVERY dimension and EVERY positive extents (element counts below
+   2^64 where the C++ multiplies in size_t); `inb i d` says that i is an index of the shape d. *)
+From Coq Require Import Permutation.
 From NM Require Import Base Index IndexProofs Views ViewsProofs.
 Local Open Scope Z_scope.
-Theorem C03_reverse : forall l, reverse l = rev l.
-Proof. exact reverse_eq_rev. Qed.
-Print Assumptions C03_reverse.
+
+(* reshape: accepted exactly when NumPy accepts the target (at most one -1, which is inferred;
+   every other extent >= 1; element counts agree / divide), with NumPy's shape; and what is
+   accepted has positive extents and the source's element count *)
+Theorem C03_reshape_shape : forall src dst, pos src -> prod src < 2 ^ 64 -> dst <> [] ->
+  prod (np_known dst) < 2 ^ 64 ->
+  shape_reshape src dst = np_reshape_shape src dst
+  /\ (forall d, np_reshape_shape src dst = Some d -> pos d /\ prod d = prod src /\ length d = length dst).
+Proof.
+  intros src dst Hs Hb Hne Hk. split; [exact (shape_reshape_np src dst Hs Hb Hne Hk)|].
+  intros d Hd. exact (np_reshape_shape_sound src dst d Hs Hd).
+Qed.
+Print Assumptions C03_reshape_shape.
+
+(* reshape keeps C order: element i of the result is the source element with the same row-major
+   rank (Horner), read at an in-bounds source index; read in C order the result enumerates the
+   source in C order (so it is a permutation of the source elements — the identity one) *)
+Theorem C03_reshape_C_order : forall src d i, pos src -> pos d -> prod d = prod src -> inb i d ->
+  inb (reshape_index src d i) src
+  /\ compute_offset (reshape_index src d i) (compute_strides src) = np_reshape_rank d i
+  /\ map (reshape_index src d) (lex_enum d) = lex_enum src.
+Proof.
+  intros src d i Hs Hd Hp Hi. destruct (reshape_index_spec src d i Hs Hd Hp Hi) as [H1 [H2 H3]].
+  split; [exact H1|]. split; [now rewrite H2 | exact (reshape_enumerates src d Hs Hd Hp)].
+Qed.
+Print Assumptions C03_reshape_C_order.
+
+Theorem C03_flatten : forall src, pos src -> prod src < 2 ^ 64 -> flatten_accept src = Some [prod src].
+Proof. exact flatten_accept_eq. Qed.
+Print Assumptions C03_flatten.
+
+(* transpose: NumPy's shape (result.shape[k] = a.shape[axes[k]], negative axes counted from the
+   end; reversed shape by default) *)
+Theorem C03_transpose_shape : forall s axes,
+  (match axes with Some p => length p = length s | None => True end) ->
+  shape_transpose s axes = np_transpose_shape s axes.
+Proof. exact shape_transpose_np. Qed.
+Print Assumptions C03_transpose_shape.
+
+(* transpose: at every index the element NumPy reads (j[axes[k]] = i[k]), inside the source *)
+Theorem C03_transpose_element : forall s axes i, np_transpose_ok (length s) axes = true ->
+  inb i (shape_transpose s axes) ->
+  transpose_index axes i = np_transpose_index axes i /\ inb (transpose_index axes i) s.
+Proof.
+  intros s axes i Hok Hi. split; [|exact (transpose_inb axes s i Hok Hi)].
+  apply transpose_index_np. apply inb_length in Hi.
+  destruct axes as [p|]; [|reflexivity]. simpl in Hi. rewrite map_length, seq_length in Hi. now rewrite Hi.
+Qed.
+Print Assumptions C03_transpose_element.
+
+(* transpose is a bijection between the index sets; reading the result in C order visits every
+   source index exactly once *)
+Theorem C03_transpose_bijection : forall s p, pos s -> np_transpose_ok (length s) (Some p) = true ->
+  let d := shape_transpose s (Some p) in
+  (forall i i', inb i d -> inb i' d -> transpose_index (Some p) i = transpose_index (Some p) i' -> i = i')
+  /\ (forall j, inb j s -> exists i, inb i d /\ transpose_index (Some p) i = j)
+  /\ Permutation (map (transpose_index (Some p)) (lex_enum d)) (lex_enum s).
+Proof.
+  intros s p Hs Hok d. pose proof (np_axes_ok_perm _ _ Hok) as Hp.
+  destruct (transpose_bijection_axes s p Hp) as [B1 B2]. split; [|split].
+  - intros i i' Hi Hi' E. apply inb_length in Hi, Hi'. unfold d in Hi, Hi'. simpl in Hi, Hi'.
+    rewrite map_length, seq_length in Hi, Hi'. exact (B1 i i' Hi Hi' E).
+  - exact B2.
+  - exact (transpose_permutes s (Some p) Hs Hok).
+Qed.
+Print Assumptions C03_transpose_bijection.
+
+(* transposing with a permutation and then with its inverse restores shape and every element *)
+Theorem C03_transpose_inverse : forall s p i, np_transpose_ok (length s) (Some p) = true -> length i = length s ->
+  let q := map (norm_ax (zlen s)) p in
+  shape_transpose (shape_transpose s (Some p)) (Some (inv_perm q)) = s
+  /\ transpose_index (Some p) (transpose_index (Some (inv_perm q)) i) = i.
+Proof. intros s p i Hok Hi. exact (transpose_inverse s p i (np_axes_ok_perm _ _ Hok) Hi). Qed.
+Print Assumptions C03_transpose_inverse.
+
+Theorem C03_transpose_default_involutive : forall s i,
+  shape_transpose (shape_transpose s None) None = s /\ transpose_index None (transpose_index None i) = i.
+Proof. exact transpose_default_involutive. Qed.
+Print Assumptions C03_transpose_default_involutive.
+
+(* swapaxes (any two valid, possibly negative axes): NumPy's shape and element; it is the
+   transpose by a permutation, so the bijection facts above apply to it *)
+Theorem C03_swapaxes : forall a1 a2 s i, np_swapaxes_ok (length s) a1 a2 = true -> length i = length s ->
+  swapaxes_accept a1 a2 s = Some (np_swap s a1 a2)
+  /\ swapaxes_index a1 a2 s i = np_swap i a1 a2
+  /\ swapaxes_defined a1 a2 s = true
+  /\ axes_perm (length s) (swapaxes_to_transpose (zlen s) a1 a2).
+Proof. exact swapaxes_np. Qed.
+Print Assumptions C03_swapaxes.
+
+(* expand_dims (one axis or a list, negative allowed, no repetition): NumPy's shape; the view is
+   the reshape to it, so C03_reshape_C_order gives the elements (ravel order unchanged) *)
+Theorem C03_expand_dims : forall ax s, pos s -> prod s < 2 ^ 64 -> np_expand_dims_ok (length s) ax = true ->
+  shape_expand_dims s ax = np_expand_dims_shape s ax
+  /\ expand_dims_defined ax s = true
+  /\ expand_dims_accept ax s = Some (np_expand_dims_shape s ax)
+  /\ pos (np_expand_dims_shape s ax) /\ prod (np_expand_dims_shape s ax) = prod s.
+Proof.
+  intros ax s Hs Hb Hok. destruct (shape_expand_dims_np s ax Hok) as [E D].
+  destruct (expand_dims_consumes s ax Hok) as [P1 [P2 _]]. rewrite E in P1, P2.
+  split; [exact E|]. split; [exact D|]. split; [exact (expand_dims_accept_np ax s Hs Hb Hok)|].
+  split; [exact (P2 Hs) | exact P1].
+Qed.
+Print Assumptions C03_expand_dims.
+
+(* squeeze (result not 0-d): NumPy's shape, a reshape to it *)
+Theorem C03_squeeze : forall s, pos s -> prod s < 2 ^ 64 -> np_squeeze_shape s <> [] ->
+  squeeze_accept s = Some (np_squeeze_shape s) /\ remove_single_dims s = np_squeeze_shape s
+  /\ squeeze_defined s = true
+  /\ pos (np_squeeze_shape s) /\ prod (np_squeeze_shape s) = prod s.
+Proof.
+  intros s Hs Hb Hne. destruct (squeeze_accept_np s Hs Hb Hne) as [A [R D]]. destruct (squeeze_prod s) as [P1 P2].
+  split; [exact A|]. split; [exact R|]. split; [exact D|]. split; [exact (P2 Hs) | exact P1].
+Qed.
+Print Assumptions C03_squeeze.
+
+(* atleast_nd / atleast_1d / atleast_2d: ones are prepended up to nd dimensions (numpy.array(a, ndmin=nd)) *)
+Theorem C03_atleast_nd : forall nd s, pos s -> prod s < 2 ^ 64 -> np_atleast_shape s nd <> [] ->
+  shape_atleast_nd s nd = np_atleast_shape s nd
+  /\ atleast_nd_accept nd s = Some (np_atleast_shape s nd)
+  /\ pos (np_atleast_shape s nd) /\ prod (np_atleast_shape s nd) = prod s.
+Proof.
+  intros nd s Hs Hb Hne. split; [exact (shape_atleast_nd_np s nd)|].
+  split; [exact (atleast_nd_accept_np nd s Hs Hb Hne)|].
+  destruct (prod_repeat1 (Z.to_nat nd - length s) s) as [P1 P2]. split; [exact (P2 Hs) | exact P1].
+Qed.
+Print Assumptions C03_atleast_nd.
+
+(* flip with non-negative axes (None, one axis, a list): NumPy's element i_k -> n_k-1-i_k on the
+   flipped axes, inside the source, shape unchanged *)
+Theorem C03_flip_on_domain : forall ax s i, (forall a, In a (axes_of ax) -> 0 <= a) -> inb i s ->
+  flip_accept ax s = Some s /\ flip_index ax s i = np_flip_index ax s i /\ inb (flip_index ax s i) s.
+Proof.
+  intros ax s i Hax Hi. split; [reflexivity|].
+  split; [exact (flip_index_np ax s i Hax (inb_length _ _ Hi)) | exact (flip_inb ax s i Hi)].
+Qed.
+Print Assumptions C03_flip_on_domain.
+
+(* the full statement (axes that NumPy accepts, negative ones included) fails *)
+Theorem C03_flip_negative_axis_refuted :
+  exists s ax i, np_flip_ok (length s) ax = true /\ inb i s /\ flip_index ax s i <> np_flip_index ax s i.
+Proof. exact flip_negative_axis_refuted. Qed.
+Print Assumptions C03_flip_negative_axis_refuted.
+
+Theorem C03_flip_flip : forall ax s i, length i = length s -> flip_index ax s (flip_index ax s i) = i.
+Proof. exact flip_flip. Qed.
+Print Assumptions C03_flip_flip.
+
+(* squeeze after expand_dims restores a source without unit extents: same shape, same index *)
+Theorem C03_squeeze_expand_dims : forall ax s i, pos s -> prod s < 2 ^ 64 ->
+  np_expand_dims_ok (length s) ax = true -> shape_squeeze s = s -> s <> [] -> inb i s ->
+  let d1 := np_expand_dims_shape s ax in
+  expand_dims_accept ax s = Some d1 /\ squeeze_accept d1 = Some s
+  /\ reshape_index s d1 (reshape_index d1 s i) = i.
+Proof. exact squeeze_expand_dims. Qed.
+Print Assumptions C03_squeeze_expand_dims.
+
+(* 0-d results are refused where NumPy returns the 0-d array *)
+Theorem C03_zero_dim_result_refuted :
+  exists s, pos s /\ np_squeeze_shape s = [] /\ np_reshape_shape s [] = Some [] /\ squeeze_accept s = None /\ reshape_accept [] s = None.
+Proof. exact zero_dim_result_refuted. Qed.
+Print Assumptions C03_zero_dim_result_refuted.
+
+(* every index map stays inside the source (the X_inb lemmas C02 cites) *)
+Theorem C03_index_maps_in_bounds : forall src i, pos src ->
+  (forall d, inb (reshape_index src d i) src)
+  /\ (forall axes, np_transpose_ok (length src) axes = true -> inb i (shape_transpose src axes) -> inb (transpose_index axes i) src)
+  /\ (forall a1 a2, np_swapaxes_ok (length src) a1 a2 = true ->
+        inb i (shape_transpose src (Some (swapaxes_to_transpose (zlen src) a1 a2))) -> inb (swapaxes_index a1 a2 src i) src)
+  /\ (forall ax, inb i src -> inb (flip_index ax src i) src).
+Proof.
+  intros src i Hs. split; [intros d; exact (reshape_index_inb src d i Hs)|].
+  split; [intros axes Hok Hi; exact (transpose_inb axes src i Hok Hi)|].
+  split; [intros a1 a2 Hok Hi; exact (swapaxes_inb a1 a2 src i Hok Hs Hi)|].
+  intros ax Hi. exact (flip_inb ax src i Hi).
+Qed.
+Print Assumptions C03_index_maps_in_bounds.
+
+(* ---------- non-vacuity ---------- *)
+Example C03_nonvacuous_reshape :
+  pos [2;3;4] /\ shape_reshape [2;3;4] [4;-1;2] = Some [4;3;2] /\ np_reshape_shape [2;3;4] [4;-1;2] = Some [4;3;2]
+  /\ inb [3;2;1] [4;3;2] /\ reshape_index [2;3;4] [4;3;2] [3;2;1] = [1;2;3]
+  /\ shape_reshape [2;3;4] [5;-1] = None /\ np_reshape_shape [2;3;4] [5;-1] = None.
+Proof. repeat split; try reflexivity; repeat constructor; lia. Qed.
+Example C03_nonvacuous_transpose :
+  np_transpose_ok 3 (Some [-1;0;1]) = true /\ shape_transpose [2;3;4] (Some [-1;0;1]) = [4;2;3]
+  /\ inb [3;1;2] [4;2;3] /\ transpose_index (Some [-1;0;1]) [3;1;2] = [1;2;3]
+  /\ inv_perm [2;0;1] = [1;2;0].
+Proof. repeat split; try reflexivity; repeat constructor; lia. Qed.
+Example C03_nonvacuous_swap_expand_squeeze_atleast :
+  np_swapaxes_ok 3 0 (-1) = true /\ swapaxes_accept 0 (-1) [2;3;4] = Some [4;3;2]
+  /\ np_expand_dims_ok 2 (AxList [0;-1]) = true /\ shape_expand_dims [2;3] (AxList [0;-1]) = [1;2;3;1]
+  /\ squeeze_accept [1;3;1;2] = Some [3;2] /\ atleast_nd_accept 4 [2;3] = Some [1;1;2;3].
+Proof. repeat split; reflexivity. Qed.
+Example C03_nonvacuous_flip :
+  flip_index (AxList [0;2]) [2;3;4] [0;1;1] = [1;1;2] /\ np_flip_index (AxList [0;2]) [2;3;4] [0;1;1] = [1;1;2]
+  /\ flip_index (AxOne (-1)) [2;3] [0;0] = [0;0] /\ np_flip_index (AxOne (-1)) [2;3] [0;0] = [0;2].
+Proof. repeat split; reflexivity. Qed.
